@@ -165,6 +165,12 @@ def check(case):
             res.label("dry-run")
         if ref.not_selected and not ref.selected:
             res.label("all-deselected")
+        if ref.untouched and case.get("pool") == "aborted":
+            from .. import tagref
+            ast = refmodel.tag_ast(prog.get("cfg") or {})
+            if any(inst["name"] in set(ref.untouched) and not tagref.evaluate(ast, refmodel.effective_tags(feat, inst))
+                   for feat, inst in runcheck.instances(prog)):
+                res.label("aborted-without-failure:deselected-never-reached")
         res.label("run")
     elif kind == "enum-status":
         check_status_enum(res)
@@ -461,6 +467,15 @@ ACT_OUTCOMES = ["pass", "pass", "fail", "raise", "pending"]
 
 
 @st.composite
+def aborted_program(draw):
+    prog = draw(gen.program_st(faults=False, max_features=2, outcomes=["pass", "pass", "pass", "abort", "fail"],
+                               cfg=gen.cfg_st(flags=("stop",), p_tags=0.85)))
+    if draw(st.integers(0, 2)) == 0:
+        prog["hook_faults"] = [[draw(st.integers(0, 10000)), "abort"]]
+    return {"kind": "run", "program": prog, "pool": "aborted"}
+
+
+@st.composite
 def act_program(draw, allow_bg_acts=True, with_skip=False, with_interrupt=True, flags=("stop",)):
     """Program whose step outcomes (some of them) are looked up at call time."""
     prog = draw(gen.program_st(faults=False, max_features=2,
@@ -527,6 +542,9 @@ def explore(rec):
     rec.enum("status-enum", [{"kind": "enum-status"}])
     rec.enum("synthetic-child-tuples<=4", synthetic_enumeration())
     rec.hyp("runs", gen.program_st().map(lambda p: {"kind": "run", "program": p}), 6000 if quick else 150000)
+    # runs that are cut short without any failure (context.abort() in a passing step or in a hook) over programs with
+    # deselected scenarios: what is never reached stays untested, whatever the selection says about it
+    rec.hyp("aborted-runs", aborted_program(), 1500 if quick else 40000)
     rec.hyp("rerun-with-reset", act_program(with_skip=True).map(
         lambda p: {"kind": "rerun", "program": p, "runs": 3, "reset": True}), 700 if quick else 20000)
     # without reset every scenario must be visited again by the later run: no --stop, no interrupt
@@ -538,7 +556,8 @@ def explore(rec):
 def required_labels(tier):
     return ["status-enum", "synthetic:scenario", "synthetic:outline", "synthetic:feature", "synthetic:rule",
             "run", "cut-short", "hook-fault", "raising-cleanup", "dry-run", "rerun:reset", "rerun:no-reset",
-            "autoretry", "autoretry:outline-as-a-whole", "autoretry:hook-raises-in-every-attempt"]
+            "autoretry", "autoretry:outline-as-a-whole", "autoretry:hook-raises-in-every-attempt",
+            "aborted-without-failure:deselected-never-reached"]
 
 
 def _f2_scenario_skipped(case, detail, info):
@@ -572,3 +591,4 @@ KNOWN_PREDICATES = {"scenario_skipped_with_other_steps": _f2_scenario_skipped,
 
 
 RULE = RULE + " " + ('Auto-retry patches outlines as a whole or row by row; hooks may read element statuses while the run is in progress (reading changes nothing).')
+RULE = RULE + " " + ('A pool of runs aborted without any failure (context.abort() in a passing step or hook) over mostly tag-selected programs: never-reached deselected scenarios keep the roll-up of their untouched steps.')
